@@ -76,8 +76,18 @@ theorem evalExpr_pres (c : Ctx) (e : Expr) : ∀ {s s' : St} {v : Val},
         · cases h
         · simp only [Except.ok.injEq, Prod.mk.injEq] at h
           obtain ⟨-, rfl⟩ := h; exact ih he
+    · next tb i s1 he =>
+      split at h
+      · split at h
+        · simp only [Except.ok.injEq, Prod.mk.injEq] at h
+          obtain ⟨-, rfl⟩ := h; exact ih he
+        · cases h
+      · split at h
+        · cases h
+        · simp only [Except.ok.injEq, Prod.mk.injEq] at h
+          obtain ⟨-, rfl⟩ := h; exact ih he
     · cases h
-    · next v1 s1 _ _ _ _ he =>
+    · next v1 s1 _ _ _ _ _ he =>
       simp only [Except.ok.injEq, Prod.mk.injEq] at h
       obtain ⟨-, rfl⟩ := h; exact ih he
   | add a b iha ihb =>
@@ -207,6 +217,11 @@ theorem renderRef_walk_pres (ps : List String) : ∀ {t v : Val} {s s' : St},
         · cases h
         · next i s1 hs => exact (slotId_pres hs).trans (ih h)
       · split at h <;> cases h
+    · split at h
+      · split at h
+        · exact ih h
+        · cases h
+      · split at h <;> cases h
     · cases h
     · cases h
     · cases h
@@ -230,6 +245,10 @@ theorem renderRef_pres {c : Ctx} {path : List String} {s s' : St} {v : Val}
             obtain ⟨-, rfl⟩ := h; exact hws.trans (slotId_pres hs)
         · simp only [Except.ok.injEq, Prod.mk.injEq] at h
           obtain ⟨-, rfl⟩ := h; exact hws
+        · split at h
+          · simp only [Except.ok.injEq, Prod.mk.injEq] at h
+            obtain ⟨-, rfl⟩ := h; exact hws
+          · cases h
         · cases h
         · cases h
         · split at h <;> cases h
@@ -251,6 +270,9 @@ theorem canon_pres {s s' : St} {v : Val} {o : OVal} (h : canon s v = .ok (o, s')
     · cases h
     · next i s1 hs =>
       simp only [Except.ok.injEq, Prod.mk.injEq] at h; obtain ⟨-, rfl⟩ := h; exact slotId_pres hs
+  · split at h
+    · simp only [Except.ok.injEq, Prod.mk.injEq] at h; obtain ⟨-, rfl⟩ := h; exact Pres.refl _
+    · cases h
 
 theorem canonFields_pres (vs : List (String × Val)) : ∀ {s s' : St} {os : List (String × OVal)},
     canonFields vs s = .ok (os, s') → Pres s s' := by
